@@ -55,6 +55,12 @@ func genSame(cur, des *Schema, tbl, col string) (same bool, dep string) {
 	if ca == nil || cb == nil || ca.Gen == "" || ca.Gen != cb.Gen {
 		return false, ""
 	}
+	if ca.GenVia != "" {
+		// reads another generated column: that one must be the same generated column as well
+		if same, _ := genSame(cur, des, tbl, ca.GenVia); !same {
+			return false, ""
+		}
+	}
 	return true, ca.GenDep
 }
 
